@@ -80,6 +80,18 @@ def main():
         seed = 0
     os.chdir(HERE)
     t0 = time.time()
+    # watchdog: a hung harness is a harness error (exit 2), never a violation
+    import faulthandler
+    import signal
+
+    def _watchdog(signum, frame):
+        faulthandler.dump_traceback(file=sys.stderr)
+        print("HARNESS-ERROR: watchdog expired (inconclusive, not a violation)", file=sys.stderr)
+        os._exit(2)
+
+    limit = int(os.environ.get("VERIF_WATCHDOG_S", "1500" if args.tier == "quick" else "14000"))
+    signal.signal(signal.SIGALRM, _watchdog)
+    signal.alarm(limit)
 
     try:
         if args.replay:
